@@ -337,3 +337,57 @@ func H_C10_Bulk(kind, n int) {
 	}
 	vrt.Reach("end")
 }
+
+// H_C10_ConcRead: a read (op: 0 Assets, 1 Get, 2 GetSince, 3 LastDate on "aaa") runs
+// while an Append creates a NEW asset "bbb": no data race, no panic, and the read of
+// the untouched asset gives what it gave before.
+func H_C10_ConcRead(kind, op int) {
+	repo := newRepo(kind)
+	pre := []*asset.Snapshot{{Date: vrt.Day(1), Close: vrt.Float64("p", 0), Volume: 1}, {Date: vrt.Day(2), Close: vrt.Float64("p", 1), Volume: 1}}
+	vrt.Assert("append_ok_pre", repo.Append("aaa", Src(pre, 0)) == nil)
+	nu := []*asset.Snapshot{{Date: vrt.Day(3), Close: vrt.Float64("q", 0), Volume: 1}}
+	var wg sync.WaitGroup
+	var errA error
+	nAssets, nGot := 0, 0
+	last := -1
+	wg.Add(2)
+	go func() {
+		defer wg.Done()
+		errA = repo.Append("bbb", Src(nu, 0))
+	}()
+	go func() {
+		defer wg.Done()
+		switch op {
+		case 0:
+			as, _ := repo.Assets()
+			nAssets = len(as)
+		case 1:
+			if c, err := repo.Get("aaa"); err == nil {
+				nGot = len(Collect1(c))
+			}
+		case 2:
+			if c, err := repo.GetSince("aaa", vrt.Day(2)); err == nil {
+				nGot = len(Collect1(c))
+			}
+		default:
+			if d, err := repo.LastDate("aaa"); err == nil {
+				last = vrt.DayOf(d)
+			}
+		}
+	}()
+	wg.Wait()
+	vrt.Assert("append_ok", errA == nil)
+	switch op {
+	case 0:
+		vrt.Assert("assets_one_or_two", nAssets == 1 || nAssets == 2)
+	case 1:
+		vrt.Assert("get_all", nGot == 2)
+	case 2:
+		vrt.Assert("getsince", nGot == 1)
+	default:
+		vrt.Assert("lastdate", last == 2)
+	}
+	as, err := repo.Assets()
+	vrt.Assert("assets_after", err == nil && len(as) == 2)
+	vrt.Reach("end")
+}
